@@ -12,6 +12,9 @@ fn attr_u128(c: &PuCtx, k: &str) -> Option<u128> {
 }
 
 pub fn oracle(c: &PuCtx, rec: &mut Rec) {
+    if c.post_malformed() {
+        return; // a pool lost part of its reserve list (C16 reports it); nothing here is defined on such a state
+    }
     if !c.out.is_ok() {
         return;
     }
